@@ -58,7 +58,10 @@ var (
 // A chan argument will be used to deliver parse results.
 func Parse(b []byte, args ...any) (n any, err error) {
 	p := parserPool.Get().(*Parser)
+	verifHook("oj.Parse.get", p)
+	defer verifHook("oj.Parse.put", p)
 	defer parserPool.Put(p)
+	defer verifHook("oj.Parse.putting", p)
 	return p.Parse(b, args...)
 }
 
@@ -76,7 +79,10 @@ func Parse(b []byte, args ...any) (n any, err error) {
 // A chan argument will be used to deliver parse results.
 func MustParse(b []byte, args ...any) (n any) {
 	p := parserPool.Get().(*Parser)
+	verifHook("oj.MustParse.get", p)
+	defer verifHook("oj.MustParse.put", p)
 	defer parserPool.Put(p)
+	defer verifHook("oj.MustParse.putting", p)
 	var err error
 	if n, err = p.Parse(b, args...); err != nil {
 		panic(err)
@@ -88,7 +94,10 @@ func MustParse(b []byte, args ...any) (n any) {
 // argument to be parsed instead of a []byte.
 func ParseString(s string, args ...any) (n any, err error) {
 	p := parserPool.Get().(*Parser)
+	verifHook("oj.ParseString.get", p)
+	defer verifHook("oj.ParseString.put", p)
 	defer parserPool.Put(p)
+	defer verifHook("oj.ParseString.putting", p)
 	return p.Parse([]byte(s), args...)
 }
 
@@ -96,7 +105,10 @@ func ParseString(s string, args ...any) (n any, err error) {
 // argument to be parsed instead of a []byte.
 func MustParseString(s string, args ...any) (n any) {
 	p := parserPool.Get().(*Parser)
+	verifHook("oj.MustParseString.get", p)
+	defer verifHook("oj.MustParseString.put", p)
 	defer parserPool.Put(p)
+	defer verifHook("oj.MustParseString.putting", p)
 	var err error
 	if n, err = p.Parse([]byte(s), args...); err != nil {
 		panic(err)
@@ -108,14 +120,20 @@ func MustParseString(s string, args ...any) (n any) {
 // if not valid JSON.
 func Load(r io.Reader, args ...any) (any, error) {
 	p := parserPool.Get().(*Parser)
+	verifHook("oj.Load.get", p)
+	defer verifHook("oj.Load.put", p)
 	defer parserPool.Put(p)
+	defer verifHook("oj.Load.putting", p)
 	return p.ParseReader(r, args...)
 }
 
 // MustLoad a JSON from a io.Reader into a simple type. Panics on error.
 func MustLoad(r io.Reader, args ...any) (n any) {
 	p := parserPool.Get().(*Parser)
+	verifHook("oj.MustLoad.get", p)
+	defer verifHook("oj.MustLoad.put", p)
 	defer parserPool.Put(p)
+	defer verifHook("oj.MustLoad.putting", p)
 	var err error
 	if n, err = p.ParseReader(r, args...); err != nil {
 		panic(err)
@@ -168,7 +186,10 @@ func JSON(data any, args ...any) string {
 	}
 	if wr == nil {
 		wr, _ = writerPool.Get().(*Writer)
+		verifHook("oj.JSON.get", wr)
+		defer verifHook("oj.JSON.put", wr)
 		defer writerPool.Put(wr)
+		defer verifHook("oj.JSON.putting", wr)
 	}
 	return wr.JSON(data)
 }
@@ -186,7 +207,10 @@ func Marshal(data any, args ...any) (out []byte, err error) {
 	}
 	if wr == nil {
 		wr, _ = marshalPool.Get().(*Writer)
+		verifHook("oj.Marshal.get", wr)
+		defer verifHook("oj.Marshal.put", wr)
 		defer marshalPool.Put(wr)
+		defer verifHook("oj.Marshal.putting", wr)
 	} else {
 		strict := wr.strict
 		wr.strict = true
@@ -216,7 +240,10 @@ func Write(w io.Writer, data any, args ...any) (err error) {
 	}
 	if wr == nil {
 		wr, _ = writerPool.Get().(*Writer)
+		verifHook("oj.Write.get", wr)
+		defer verifHook("oj.Write.put", wr)
 		defer writerPool.Put(wr)
+		defer verifHook("oj.Write.putting", wr)
 	}
 	return wr.Write(w, data)
 }
